@@ -1414,6 +1414,16 @@ def np_vector_norm(ctx: Ctx, v: Arr, ordv=None):
     """np.linalg.norm of a vector (ord None / 2 / 1 / any int): an uninterpreted function of the entries with the norm
     facts that hold for every p-norm: non-negative, zero exactly for the zero vector.  (Homogeneity and the triangle
     inequality are not stated.)"""
+    if v.ndim == 2 and ordv is None:
+        # Frobenius norm of a matrix: a fresh value with the two norm facts
+        v = snap(v)
+        t = T.fresh_real("fro")
+        i, j, wi, wj = T.fresh_int("ni"), T.fresh_int("nj"), T.fresh_int("nwi"), T.fresh_int("nwj")
+        inr = lambda a_, b_: z3.And(0 <= a_, T.lt(a_, v.shape[0]), 0 <= b_, T.lt(b_, v.shape[1]))
+        ctx.assume(t >= 0, trusted="numpy:linalg.norm(matrix) >= 0; = 0 iff the matrix is zero")
+        ctx.assume(z3.Implies(t == 0, T.ForAll([i, j], z3.Implies(inr(i, j), T.tz(T.as_real(v.fn(i, j))) == 0))))
+        ctx.assume(z3.Or(t == 0, z3.And(inr(wi, wj), T.tz(T.as_real(v.fn(wi, wj))) != 0)))
+        return t
     if v.ndim != 1:
         raise PathAbort("np.linalg.norm of a non-vector", ctx.cur_line)
     if ordv is None:
